@@ -1028,6 +1028,104 @@ func genIters(r *hx.Rand) (string, string) {
 	}
 }
 
+// clampCases: the clamp of the exponent digit loop (`if e < 10000 { e = e*10 + digit }` in readFloat
+// and decimal.set). A literal below 100000 is read exactly; of a longer one the first five
+// significant digits are kept. That only shows when the mantissa text compensates the exponent:
+// more than 9691 digits after the point / 9669 before it (hex: 2244 / 2231).
+//
+// Every case is a K case (the model mirrors the clamp). It is an S case as well exactly when the
+// hypothesis of parseFloat_correct holds — literal < 100000, or a mantissa inside those bounds (and
+// outside N3) — where code and specification must agree. The compensating texts beyond the
+// bounds are K-only: there the real code (and strconv) return a finite wrong value; they are the
+// finding candidate described in notes/C03.md and become S cases once it is registered.
+func clampCases(r *hx.Rand) {
+	run1 := func(hex bool, ip, fp string, esign string, lit string, tag string) {
+		num := ip
+		if fp != "" || r.Chance(1, 8) {
+			num += "." + fp
+		}
+		if hex {
+			num = "0x" + num + "p" + esign + lit
+		} else {
+			num += "e" + esign + lit
+		}
+		if r.Chance(1, 6) {
+			num = "-" + num
+		}
+		sig := len(strings.TrimLeft(ip, "0"))
+		small := len(strings.TrimLeft(lit, "0_")) <= 5 && !strings.Contains(lit, "_")
+		moderate := sig <= 800 && len(fp) <= 9691
+		if hex {
+			moderate = sig <= 2231 && len(fp) <= 2244
+		} else if sig > 800 && n3Registered && small {
+			moderate = true // N3 class: known finding, tagged by the driver
+		}
+		// the specification is only evaluated for literals of at most 7 digits (10^(10^7) is the
+		// largest power worth computing)
+		withSpec := (small || moderate) && len(strings.TrimLeft(lit, "0")) <= 7
+		lineCase(strconv.Itoa(1+r.Intn(9)), num, tag, withSpec)
+	}
+	lits := []string{"9999", "10000", "10001", "99999", "100000", "100001", "123456", "999999", "1000000", "000099999", "0000100000",
+		"10000000000000000000", "1" + strings.Repeat("0", 300), "9" + strings.Repeat("9", 59)}
+	z := func(n int) string { return strings.Repeat("0", n) }
+	// short mantissas: the clamp is harmless
+	for _, lit := range lits {
+		for _, es := range []string{"", "+", "-"} {
+			run1(false, "1", "", es, lit, "clamp")
+			run1(false, "0", z(20)+"25", es, lit, "clamp")
+			run1(false, "12345678901234567890123", "5", es, lit, "clamp")
+			run1(true, "1", "8", es, lit, "clamp")
+			run1(true, "0", z(30)+"1ffffffffffffffff", es, lit, "clamp")
+		}
+	}
+	run1(true, "1", "", "", "10_0000", "clamp")
+	run1(true, "1", "", "-", "1_00000", "clamp")
+	// mantissas around the bounds of `Moderate`, and well beyond (compensating)
+	for _, lit := range []string{"99999", "100000", "100001", "1000000", "654321"} {
+		for _, zn := range []int{9300, 9689, 9690, 9691, 9692, 9693, 9999, 10000, 10001, 10300} {
+			run1(false, "0", z(zn)+"1", "", lit, "clamp-dec")
+			run1(false, "", z(zn)+hx.Pick(r, []string{"25", "123456789012345678901", "9999999999999999999999"}), "+", lit, "clamp-dec")
+		}
+		for _, zn := range []int{700, 799, 9660, 9668, 9669, 9670, 9999, 10000, 10300} {
+			run1(false, "1"+z(zn), "", "-", lit, "clamp-dec")
+			run1(false, hx.Pick(r, []string{"25", "123456789012345678901"})+z(zn), "5", "-", lit, "clamp-dec")
+		}
+		for _, zn := range []int{2000, 2242, 2243, 2244, 2245, 2246, 2499, 2500, 2501, 2600} {
+			run1(true, "0", z(zn)+"1", "", lit, "clamp-hex")
+			run1(true, "", z(zn)+hx.Pick(r, []string{"8", "1fffffffffffff8", "123456789abcdef01"}), "+", lit, "clamp-hex")
+		}
+		for _, zn := range []int{2000, 2229, 2230, 2231, 2232, 2233, 2499, 2500, 2501, 2600} {
+			run1(true, "1"+z(zn), "", "-", lit, "clamp-hex")
+			run1(true, hx.Pick(r, []string{"8", "1fffffffffffff8"})+z(zn), "8", "-", lit, "clamp-hex")
+		}
+	}
+	// random ones
+	for i := 0; i < hx.N(150, 3000); i++ {
+		hex := r.Bool()
+		lit := hx.Pick(r, []string{"99999", "100000", "100001", "200000", "999999", "12345678"})
+		if r.Chance(1, 4) {
+			lit = strconv.Itoa(90000 + r.Intn(30000))
+		}
+		lim := 9700
+		if hex {
+			lim = 2240
+		}
+		zn := lim - 60 + r.Intn(120)
+		if r.Chance(1, 3) {
+			zn = r.Intn(3 * lim / 2)
+		}
+		digs := randDigits(r, 1+r.Intn(25))
+		if hex {
+			digs = randHexDigits(r, 1+r.Intn(20))
+		}
+		if r.Bool() {
+			run1(hex, "", z(zn)+digs, hx.Pick(r, []string{"", "+"}), lit, "clamp-rand")
+		} else {
+			run1(hex, strings.TrimLeft(digs, "0")+"1"+z(zn), hx.Pick(r, []string{"", "5"}), "-", lit, "clamp-rand")
+		}
+	}
+}
+
 func main() {
 	defer hx.Flush()
 	r := hx.NewRand(0xC03)
@@ -1062,6 +1160,8 @@ func main() {
 	for _, s := range []string{"1e1000000000000", "1e-1000000000000", "1e99999999999999999999", "0.1e100000", "0x1p99999999999", "0x1p-99999999999", "1e100000_0"} {
 		lineCase("1", s, "bigexp", false)
 	}
+
+	clampCases(r)
 
 	n := hx.N(60000, 1200000)
 	for i := 0; i < n; i++ {
